@@ -179,6 +179,13 @@ AddConstant(s, name, data, t) ==
                      IF c = name THEN data ELSE s.consts[c]]
     /\ PostRows(s, t, Rows(s), TRUE, FALSE)
 
+\* in-place write of an existing constant (set(c=..), pa.c[:] = .., get(c))
+SetConstant(s, name, data, t) ==
+    /\ name \in DOMAIN s.consts /\ Len(data) = Len(s.consts[name])
+    /\ SameMeta(s, t) /\ t.outs = s.outs
+    /\ t.consts = [s.consts EXCEPT ![name] = data]
+    /\ PostRows(s, t, Rows(s), TRUE, FALSE)
+
 \* resize(size) followed by the harness filling the new region with `fill`
 ResizeFill(s, size, fill, t) ==
     LET keep == IF size < N(s) THEN size ELSE N(s)
